@@ -1,12 +1,17 @@
 """C05 — no frontend input can crash the backend or reach the handler unvalidated."""
 from .srv import SrvFamily
+from .c13 import MemFamily   # daemon part of the statement: memory-table messages with adversarial 64-bit values
+from .c14 import VqFamily    # daemon part: per-ring messages, features, indexes beyond the ring count, raw u64 payloads
 
-PROPS_MODULES = ["C05", "C05Args", "Dispatch", "Helpers"]
+PROPS_MODULES = ["C05", "C05Args", "Dispatch", "Helpers", "MemOps", "RoutingOps"]
 RULE = ("family `srv` (malformed + well-formed modes): grammar-aware mutations of valid requests (size/flags/code/body field "
         "perturbed to boundary values, truncated/extended bodies, 0..40 descriptors, raw garbage, early close) after every "
         "negotiation prefix, fed to the real BackendReqHandler built with overflow checks and debug assertions; a panic is a "
         "violation; every handler call is checked against the protocol's validity rules (Spec.Proto.validCall) and requests "
         "violating a listed rule must be refused without a handler call. non-trivial = distinct scenarios with at least one "
-        "refusal or handler call.")
+        "refusal or handler call. Daemon part of the statement: families `mem` and `vq` (see C13/C14) drive a real VhostUserDaemon with "
+        "memory-table and per-ring messages carrying adversarial 64-bit values (top-of-address-space ranges, indexes beyond the ring "
+        "count, raw u64 payloads); a request thread that panics (overflow checks on) or stops answering is a violation (`no-answer`).")
 ASSUMPTIONS = ["memory safety of the unsafe casts is trusted to rustc given the proved length guards", "allocation failure not modelled"]
-FAMILIES = [SrvFamily(modes=("malformed", "wf"), quick=(600, 0, 4000), thorough=(5000, 0, 150000))]
+FAMILIES = [SrvFamily(modes=("malformed", "wf"), quick=(600, 0, 4000), thorough=(5000, 0, 150000)),
+            MemFamily(), VqFamily()]
